@@ -510,7 +510,8 @@ def gen_large(rng, tier, i):
     target = rng.choice(sizes if style != 'clauses' else sizes[:3 if tier == 'quick' else 5])
     text, clauses = g_large(rng, style, target)
     out = [{'src': text, 'kind': 'large-' + style, 'base_clauses': len(clauses), 'large': True}]
-    for c in corruptions(rng, clauses, 3, _LARGE_KINDS):
+    # always one name -> reserved word, then two edits drawn from the kinds for large texts
+    for c in corruptions(rng, clauses, 1, ['keyword']) + corruptions(rng, clauses, 2, _LARGE_KINDS):
         c['kind'] = 'large-' + style + ':' + c['kind']
         c['large'] = True
         out.append(c)
